@@ -1380,6 +1380,58 @@ def run(idx, rep, tier):
              'a value is refused when written as a bare word instead of '
              'being stored as a flag')
     lines_split_on_newline_only(k, 'C17.R8')
+    rep.rule('C17.R10', 'SSHKnownHosts._match: in the port-qualified lookup '
+             '([host]:port) network patterns take no part - the address '
+             'object handed to the pattern entries is None there (CIDR '
+             'entries carry no port): otherwise "10.1.2.0/24 KEY_B" is '
+             'trusted for [gw]:2222 next to its own entry, and a port-less '
+             'CIDR match suppresses the fallback to the plain names; and '
+             'an authorized_keys line whose key field holds an OpenSSH '
+             'certificate is skipped like any other unusable line instead '
+             'of raising AttributeError out of the loader')
+    _fm = k.func('known_hosts.SSHKnownHosts._match')
+    _gm = k.cfg(_fm)
+    _clr = [n for n, v in k.stores_to(_fm, 'ip')
+            if isinstance(v, ast.Constant) and v.value is None and
+            _gm.guarded_by(n.id, lambda x: True if x.kind == 'atom' and
+                           dotted(x.ast) == 'port' else None) is None]
+    _uses = [n for n, c in k.calls_named(_fm, 'matches')
+             if any(dotted(a) == 'ip' for a in c.args)]
+    rep.floor('C17.R10', 'pattern matches with the address object',
+              len(_uses), 1)
+    for _n in _uses:
+        # on the port path the use is reached only through the clearing
+        _w = None
+        for _a in _gm.nodes:
+            if _a.kind == 'atom' and dotted(_a.ast) == 'port':
+                for _b, _lab in _gm.succ[_a.id]:
+                    if _lab is True:
+                        _w = _w or _gm.path(_b, _n.id,
+                                            blocked_nodes=[c.id for c in _clr])
+        rep.check(bool(_clr) and _w is None, 'C17.R10',
+                  key(_fm, 'no network match in the port lookup'),
+                  'ip = None on the port path before the pattern entries',
+                  'known_hosts "[gw.example.net]:2222 KEY_A" and '
+                  '"10.1.2.0/24 KEY_B": the lookup for gw:2222 at 10.1.2.3 '
+                  'returns KEY_A and KEY_B', k.loc(_fm, _n))
+    _fi2 = k.func('auth_keys._SSHAuthorizedKeyEntry._import_key_or_cert')
+    _gi2 = k.cfg(_fi2)
+    _sub = [n for n in _gi2.nodes if n.ast is not None and any(
+        isinstance(x, ast.Attribute) and x.attr in ('subject', 'issuer') and
+        (dotted(x.value) or '').endswith('cert')
+        for r_ in _gi2.node_roots(n) for x in ast.walk(r_))]
+    rep.floor('C17.R10', 'X.509 field uses', len(_sub), 1)
+    for _n in _sub:
+        _w = _gi2.guarded_by(_n.id, lambda x: (
+            True if x.kind == 'atom' and isinstance(x.ast, ast.Attribute)
+            and x.ast.attr == 'is_x509' else None))
+        rep.check(_w is None, 'C17.R10',
+                  key(_fi2, 'X.509 fields read from X.509 certificates only'),
+                  'guarded by is_x509',
+                  '`cert-authority ssh-ed25519-cert-v01@openssh.com AAAA...` '
+                  'raises AttributeError (no .subject) out of '
+                  'import_authorized_keys: the whole file fails to load',
+                  k.loc(_fi2, _n), _gi2.describe_path(_w) if _w else None)
     rep.rule('C17.R9', 'SSHKnownHosts._add_exact gives every name of a '
              'line an entry list of its own (the value stored into '
              '_exact_entries is a list display written at the store, never '
@@ -1454,3 +1506,6 @@ def run(idx, rep, tier):
     rep.floor('C17.R7', 'shared rows', len(_kept), 1)
     for o in rep.obligations[_before:]:
         o.rule = 'C17.R7'
+    from .shared import share
+    from .c04 import r8 as _c04r8
+    share(k, 'C17.R11', 'a trust-file line is selected for the key it lists (= C04.R8): key equality and hash cover every public parameter (DSA: p, q, g, y), so a look-alike key does not inherit the line and its options', _c04r8)
